@@ -16,6 +16,7 @@ from harness.refs import sse as ref
 
 LEVEL = "exploration"
 RULES = {
+    "atheris": "thorough tier: Atheris/libFuzzer coverage-guided campaign; bytes are decoded into the same structured case and judged by the same oracle inside the target (half of the jobs start from an empty corpus, half from two small valid inputs)",
     "block": "Hypothesis: sequences of 1..5 event dicts (any subset of data/event/id/retry in any key order; data over full Unicode "
     "weighted to CR, LF, CRLF, VT, FF, FS/GS/RS, NEL, LS, PS, empty lines, leading spaces/colons; 4 charsets) encoded with "
     "build_bytes_from_sse, concatenated with ping comments in between, decoded and parsed with an independent WHATWG "
@@ -327,6 +328,18 @@ def flow_fixed_cases():
         yield side, {"events": [{"event": "\xe9v", "id": "\xfc", "data": "\xe0"}], "charset": "latin-1", "delays": [0], "ping": 30}
 
 
+def oracle_atheris(case) -> Result:
+    """Replay / triage oracle for inputs found by the Atheris campaign: decode the bytes like the fuzz target does."""
+    from fuzz import targets
+
+    res = oracle_block(targets.CASES["C19"](case["data"]))
+    res.label("atheris")
+    return res
+
+
+SUBS["atheris"] = oracle_atheris
+
+
 def run(rec, only=None):
     quick = rec.tier == "quick"
     core.drive_cases(rec, "wsgi_slow", slow_client_cases(), oracle_wsgi)
@@ -341,3 +354,8 @@ def run(rec, only=None):
     core.drive_hypothesis(rec, "wsgi_ping", wsgi_ping_case(), oracle_wsgi, 25 if quick else 300, seed_offset=3, shrink=False)
     for k in ("block", "asgi", "wsgi", "wsgi_ping"):
         rec.exhaustive[k] = False
+    if not quick:
+        # coverage-guided second engine (Atheris / libFuzzer), same oracle inside the target
+        from fuzz import driver
+
+        driver.campaign(rec, "C19", oracle_atheris, runs=200000, seeds=[b"\x01\x00\x02ab=c;d", b"\x02\x01\x09\x03abc\r\n\x05hello"], max_total_time=120, jobs=4)
